@@ -85,6 +85,10 @@ ML_KINDS = [("'", "'"), ('"', '"'), ('`', '`'), ('´', '´'), ('[', ']'), ('$$',
             ("'it''s", "'"), ("'a\\'", "'"), ('"a\\"', '"'), ('"a""', '"'), ("E'\\\\", "'"), ('-- ', '\n'), ('# ', '\r\n'), ('--+ ', '\r')]
 ML_PAYLOADS = ['a \nb', 'a\t\r\nb', 'a\rb', 'a\n\n\n\nb', 'a \r\n \r\n\r\n\r\n\r\nb', 'a\x0cb', 'a\x0bb', 'a\x1cb', 'a\x1db', 'a\x1eb', 'a\x85b', 'a b',
                'a b', 'a  b', ' a ', 'a \n', '\n a', 'a\xa0\nb', 'a\\\nb', 'a\\ \n\\b']
+# second red-team pass: text the serializer could 'normalise' without touching a line end — decomposed letters (NFC/NFKC would recompose them),
+# compatibility characters, tabs in the middle of a line, BOM / zero-width characters, astral characters, letters with special case mappings
+ML_PAYLOADS += ['e\u0301 A\u030a o\u0308\u0304', '\u212b \u2126 \u1e9b\u0323', '\ufb01 \uff21 \u2460 \u00b5', 'a\tb\t\tc', '\ufeffa\u200bb\u200d', '\U0001f600 \U00020000',
+                '\u0130 \u0131 \u017f \u1e9e', 'A\u0328\u0301 \u1100\u1161\u11a8']
 ML_TEMPLATES = ['select %s from x', 'select 1, %s as c from x where y = %s', '%s', 'select a from x where b in (%s, %s) order by 1']
 
 
@@ -184,6 +188,53 @@ def separator_cases(ctx):
     return out
 
 
+# -- (4b) second red-team pass: a word directly in front of '(' is lexed as a Name whatever it spells (lexer rule `[A-Z]\\w*(?=\\()`), so a layout
+#         filter that moves whitespace between a call's name and its parenthesis re-types the word.  Every dictionary word (all keyword tables
+#         of the library) x every kind of argument x with/without a blank in front of '(' x the layout option sets
+CALL_ARGS = ['select 1', '(select 1)', 'select a from b where c = 1', 'values (1)', 'create table y', '1', '*', 'a, b', 'distinct a', "'s'", '', 'a = 1 and b', 'case when a then b end',
+             '/* c */ select 1', 'select 1 -- c\n']
+CALL_TEMPLATES = ['select {c} from t', 'select * from t where x = {c} and y', '{c}', 'select f(1, {c}), g({c}) from t', 'insert into {c} select 1', 'select ({c})']
+CALL_REPRESENTATIVES = ['any', 'all', 'some', 'exists', 'array', 'count', 'left', 'if', 'replace', 'not', 'and', 'select', 'set', 'join', 'on', 'where', 'order', 'end', 'begin', 'varchar', 'int',
+                        'coalesce', 'foo', 'x1', 'in', 'as', 'values', 'using', 'case', 'from', 'over', 'filter', 'interval', 'table', 'go', 'null', 'like', 'union', 'limit', 'between']
+
+
+def dictionary_words():
+    from sqlparse import keywords as K
+    words = set()
+    for name in dir(K):
+        d = getattr(K, name)
+        if name.startswith('KEYWORDS') and isinstance(d, dict):
+            words |= {w for w in d if re.fullmatch(r'\w+', w)}
+    return sorted(words)
+
+
+def call_cases(ctx):
+    out = []
+    layout = [o for o in OPTSETS if o]
+    words = dictionary_words()
+    for wi, w in enumerate(words):
+        for sp in ('', ' '):
+            for ai, arg in enumerate(CALL_ARGS[:2] if ctx.quick() else CALL_ARGS[:5]):
+                if ctx.quick() and (wi + ai) % 3 and sp:
+                    continue
+                c = '%s%s(%s)' % (w.lower() if wi % 2 else w, sp, arg)
+                for op in ([{'reindent': True}, {'reindent_aligned': True}] + ([] if ctx.quick() else layout)):
+                    out.append((CALL_TEMPLATES[(wi + ai) % 2].replace('{c}', c), op))
+    for wi, w in enumerate(CALL_REPRESENTATIVES):
+        for sp in ('', ' ', '\n'):
+            for ai, arg in enumerate(CALL_ARGS):
+                for ti, tpl in enumerate(CALL_TEMPLATES):
+                    if ctx.quick() and (wi + ai + ti + len(sp)) % 8:
+                        continue
+                    c = '%s%s(%s)' % (w, sp, arg)
+                    for k, op in enumerate(layout):
+                        if ctx.quick() and (k + wi + ai) % 3:
+                            continue
+                        out.append((tpl.replace('{c}', c), op))
+    ctx.count('sweep.calls', len(out))
+    return out
+
+
 # -- (5) local search around inputs on which the model and the code disagree (a broken tie): the same text with a comment in each gap
 def around(text, opts, limit=400):
     toks = [v for _, v in oracles.lex(text)]
@@ -209,7 +260,7 @@ def run(ctx):
         for k in opts:
             ctx.count('opt:' + k)
         oracle(ctx, text, opts)
-    sweeps = multiline_cases(ctx) + neighbour_cases(ctx) + gap_cases(ctx) + separator_cases(ctx)
+    sweeps = multiline_cases(ctx) + neighbour_cases(ctx) + gap_cases(ctx) + separator_cases(ctx) + call_cases(ctx)
     for text, opts in sweeps:
         oracle(ctx, text, opts)
     ctx.samples += [[short(t, 70), o] for t, o in cs[:3]]
@@ -285,6 +336,20 @@ def go_ends_inner_statement(text):
     return False
 
 
+def go_then_blanks_on_the_same_line(text):
+    """the no-option face of KF-C06-1: GO ends a statement, only blanks (no line break) separate it from the next token; the blanks are the
+    statement's trailing whitespace and the serializer strips them"""
+    toks = oracles.lex(text)
+    for i, (tt, v) in enumerate(toks):
+        if tt is T.Keyword and re.fullmatch(r'GO(\s+\d+)?', v.upper()):
+            j = i + 1
+            while j < len(toks) and toks[j][0] in T.Whitespace and not re.search(r'[\r\n]', toks[j][1]):
+                j += 1
+            if j > i + 1 and j < len(toks) and toks[j][0] not in T.Whitespace and toks[j][1] != ';':
+                return True
+    return False
+
+
 def later_statement_starts_with_comment(text):
     """a statement other than the first begins with a comment: once the previous statement's trailing line break is gone the comment sits on the
     line of the ';' and the splitter gives it to the previous statement"""
@@ -300,6 +365,44 @@ def later_statement_starts_with_comment(text):
 def hash_operator_before_token(text):
     toks = oracles.lex(text)
     return any(tt is T.Operator and v == '#' and toks[i + 1][0] not in T.Whitespace for i, (tt, v) in enumerate(toks[:-1]))
+
+
+def call_name_retyped(text, out):
+    """KF-C06-5: the output's tokens are the input's except that words standing directly in front of a '(' whose parenthesis holds a DML/DDL keyword
+    at its own level (ReindentFilter._process_parenthesis puts a line break in front of such a parenthesis) are no longer Names: the same word,
+    now followed by whitespace, lexes as what it spells (Keyword, Builtin, …)"""
+    raw = oracles.lex(text)
+    idx = [i for i, (tt, _) in enumerate(raw) if tt not in T.Whitespace]
+    a, b = [raw[i] for i in idx], _lexsig(out)
+    if len(a) != len(b):
+        return False
+    diff = 0
+    for k, ((ta, va), (tb, vb)) in enumerate(zip(a, b)):
+        if ta is tb and va == vb:
+            continue
+        if ta in T.Comment or tb in T.Comment:
+            if ta is tb and _ser_norm(va, ta in T.Comment.Single).rstrip('\r\n') == vb.rstrip('\r\n'):
+                continue                                                # KF-C06-2 riding along
+            return False
+        i = idx[k]
+        if not (ta is T.Name and va == vb and tb is not T.Name and i + 1 < len(raw) and raw[i + 1][1] == '('):
+            return False
+        if oracles.lex(va)[0][0] is T.Name:
+            return False
+        depth, dml = 0, False
+        for tt, v in raw[i + 1:]:
+            if v == '(':
+                depth += 1
+            elif v == ')':
+                depth -= 1
+                if depth == 0:
+                    break
+            elif depth == 1 and (tt in T.Keyword.DML or tt in T.Keyword.DDL):
+                dml = True
+        if not dml:
+            return False
+        diff += 1
+    return diff > 0
 
 
 def classify(f, kf):
@@ -327,10 +430,14 @@ def classify(f, kf):
     glue = eff.get('strip_whitespace') and (not eff.get('reindent') or eff.get('reindent_aligned'))
     if 'KF-C06-1' in ids and glue and 'changed the sequence' in f['what'] and go_ends_inner_statement(text):
         return 'KF-C06-1'
+    if 'KF-C06-1' in ids and 'changed the sequence' in f['what'] and go_then_blanks_on_the_same_line(text):
+        return 'KF-C06-1'
     if 'KF-C06-1' in ids and glue and 'different number of statements' in f['what'] and later_statement_starts_with_comment(text):
         return 'KF-C06-1'
     if 'KF-C06-4' in ids and opts.get('use_space_around_operators') and hash_operator_before_token(text):
         return 'KF-C06-4'
+    if 'KF-C06-5' in ids and eff.get('reindent') and 'changed the sequence' in f['what'] and call_name_retyped(text, out):
+        return 'KF-C06-5'
     return None
 
 
